@@ -168,6 +168,7 @@ Proof.
     right. exists c0. split; [exact H3|]. left. split; [exact H1|]. split; [exact H2|]. split; [exact H4|]. split; [exact H5 | exact H6].
   - left. apply cb_return_log.
   - left. destruct (Nat.eqb c 0); [reflexivity | apply (cancel_root_frame s c)].
+  - left. destruct (watch_step_spec s c) as [->|[x [y [_ [-> _]]]]]; reflexivity.
 Qed.
 
 (* ------------------------------------------------------------------ *)
